@@ -1,5 +1,5 @@
 import ast
-from typing import Dict, List, Optional
+from typing import Dict, List, Optional, Set
 
 
 class argument_stack:
@@ -33,6 +33,17 @@ class argument_stack:
             if name in frames:
                 return frames[name]
         return default
+
+    def names_in_definitions(self) -> Set[str]:
+        "All the names that are mentioned anywhere in the currently defined values"
+        return {
+            n.id
+            for frame in self._arg_transformer
+            for name, val in frame.items()
+            if not (isinstance(val, ast.Name) and val.id == name)
+            for n in ast.walk(val)
+            if isinstance(n, ast.Name)
+        }
 
     def define_name(self, name: str, val: ast.AST):
         "Add a definition to the current deepest stack frame"
